@@ -77,8 +77,9 @@ impl<'a, R: Read> Reader<'a, R> {
         schemata: Option<Vec<&'a Schema>>,
         #[builder(default = is_human_readable())] human_readable: bool,
     ) -> AvroResult<Reader<'a, R>> {
-        let schemata =
-            schemata.unwrap_or_else(|| reader_schema.map(|rs| vec![rs]).unwrap_or_default());
+        // The writer schema in the file header is self-contained unless `schemata` says otherwise:
+        // the reader schema's definitions must not stand in for the writer's own.
+        let schemata = schemata.unwrap_or_default();
 
         let block = Block::new(reader, schemata, human_readable)?;
         let mut reader = Reader {
